@@ -3,6 +3,7 @@
 use crate::{P, V};
 use serde::{de::DeserializeOwned, Serialize};
 use serde_json::Value;
+use crate::sv::SV;
 use yata::core::{Action, Candle, Error, IndicatorConfig, IndicatorConfigDyn, IndicatorInstance, IndicatorResult, Method, Sequence, Source, OHLCV};
 use yata::helpers::Peekable;
 use yata::methods::*;
@@ -178,6 +179,9 @@ pub trait DM {
 	fn peek(&self) -> Option<Out>;
 	fn ser(&self) -> Result<Value, String>;
 	fn de(&self, v: &Value) -> Result<Box<dyn DM>, String>;
+	/// bit-exact route (NaN-capable), see sv.rs
+	fn ser_b(&self) -> Result<SV, String>;
+	fn de_b(&self, v: &SV) -> Result<Box<dyn DM>, String>;
 	fn bclone(&self) -> Box<dyn DM>;
 }
 
@@ -354,6 +358,13 @@ macro_rules! dm {
 			}
 			fn de(&self, v: &Value) -> Result<Box<dyn DM>, String> {
 				let t: $ty = serde_json::from_value(v.clone()).map_err(|e| e.to_string())?;
+				Ok(Box::new($w(t)))
+			}
+			fn ser_b(&self) -> Result<SV, String> {
+				crate::sv::to_sv(&self.0)
+			}
+			fn de_b(&self, v: &SV) -> Result<Box<dyn DM>, String> {
+				let t: $ty = crate::sv::from_sv(v)?;
 				Ok(Box::new($w(t)))
 			}
 			fn bclone(&self) -> Box<dyn DM> {
@@ -750,6 +761,8 @@ pub trait DI {
 	fn name(&self) -> &'static str;
 	fn ser(&self) -> Result<Value, String>;
 	fn de(&self, v: &Value) -> Result<Box<dyn DI>, String>;
+	fn ser_b(&self) -> Result<SV, String>;
+	fn de_b(&self, v: &SV) -> Result<Box<dyn DI>, String>;
 	fn bclone(&self) -> Box<dyn DI>;
 	fn cfg_ser(&self) -> Result<Value, String>;
 	fn over(&mut self, cs: &[Candle]) -> Vec<IndicatorResult>;
@@ -765,6 +778,8 @@ pub trait DC {
 	fn init(&self, c: &Candle) -> Result<Box<dyn DI>, Error>;
 	fn ser(&self) -> Result<Value, String>;
 	fn de(&self, v: &Value) -> Result<Box<dyn DC>, String>;
+	fn ser_b(&self) -> Result<SV, String>;
+	fn de_b(&self, v: &SV) -> Result<Box<dyn DC>, String>;
 	fn bclone(&self) -> Box<dyn DC>;
 	fn as_dyn(&self) -> Box<dyn IndicatorConfigDyn<Candle>>;
 	fn over(&self, cs: &[Candle]) -> Result<Vec<IndicatorResult>, Error>;
@@ -793,6 +808,13 @@ where
 	}
 	fn de(&self, v: &Value) -> Result<Box<dyn DI>, String> {
 		let t: I = serde_json::from_value(v.clone()).map_err(|e| e.to_string())?;
+		Ok(Box::new(WI(t)))
+	}
+	fn ser_b(&self) -> Result<SV, String> {
+		crate::sv::to_sv(&self.0)
+	}
+	fn de_b(&self, v: &SV) -> Result<Box<dyn DI>, String> {
+		let t: I = crate::sv::from_sv(v)?;
 		Ok(Box::new(WI(t)))
 	}
 	fn bclone(&self) -> Box<dyn DI> {
@@ -838,6 +860,13 @@ where
 	}
 	fn de(&self, v: &Value) -> Result<Box<dyn DC>, String> {
 		let t: C = serde_json::from_value(v.clone()).map_err(|e| e.to_string())?;
+		Ok(Box::new(WC(t)))
+	}
+	fn ser_b(&self) -> Result<SV, String> {
+		crate::sv::to_sv(&self.0)
+	}
+	fn de_b(&self, v: &SV) -> Result<Box<dyn DC>, String> {
+		let t: C = crate::sv::from_sv(v)?;
 		Ok(Box::new(WC(t)))
 	}
 	fn bclone(&self) -> Box<dyn DC> {
